@@ -118,9 +118,13 @@ class C17(Check):
         # ---- U2
         for kind, pat in (("derived", "sym.derived[key]"), ("reactions", "sym.reactions[key]")):
             ss = [s for s in walk_no_nested(cgf) if isinstance(s, ast.Assign) and norm(s.targets[0]) == pat]
-            ok = ss and all("args=free_symbols(" in norm(c) and norm(c.keywords[[k.arg for k in c.keywords].index("args")].value) ==
-                            f"free_symbols({norm(c.keywords[[k.arg for k in c.keywords].index('expr')].value)})"
-                            for s in ss for c in ast.walk(s.value) if isinstance(c, ast.Call) and norm(c.func) == "SymbolicFn")
+            def args_ok(c):
+                kw_ = {k.arg: norm(k.value) for k in c.keywords}
+                core = f"free_symbols({kw_.get('expr')})"
+                # any order of the expression's own free symbols is fine: definition and call use the same list object
+                return kw_.get("args") in (core, f"sorted({core})", f"list({core})", f"tuple({core})")
+
+            ok = ss and all(args_ok(c) for s in ss for c in ast.walk(s.value) if isinstance(c, ast.Call) and norm(c.func) == "SymbolicFn")
             if ok:
                 self.holds("U2", MOD, "_codegen", f"args-of-{kind}", ss[0], "args = free_symbols(expr) of the very expression that becomes the body")
             else:
@@ -162,8 +166,9 @@ class C17(Check):
         ifs = [s for s in body if isinstance(s, ast.If)]
         last = body[-1]
         shapes = [norm(i.test) for i in ifs]
-        if isinstance(last, ast.Return) and "SymbolicFn(" in norm(last.value) and "isinstance(v, sympy.Float)" in shapes and "isinstance(v, sympy.Symbol)" in shapes \
-                and f"free_symbols(v)" in norm(last.value):
+        ret_of = {norm(i.test): norm(i.body[-1]) for i in ifs if i.body}
+        if isinstance(last, ast.Return) and "SymbolicFn(" in norm(last.value) and ret_of.get("isinstance(v, sympy.Float)") == "return v" \
+                and ret_of.get("isinstance(v, sympy.Symbol)") == "return v.name" and f"free_symbols(v)" in norm(last.value):
             self.holds("U4", MOD, ts.name, "exhaustive", ts, "Float -> number, Symbol -> name, everything else -> computed coefficient over its own free symbols")
         else:
             self.violated("U4", MOD, ts.name, "exhaustive", ts, "a stoichiometry shape falls through without being carried over",
@@ -194,6 +199,7 @@ class C17(Check):
             Variant("digest-of-path-only", MOD, "read", "hashlib.sha256(str(file.resolve()).encode() + b'\\x00' + file.read_bytes())", "hashlib.sha256(str(file.resolve()).encode())", expect="U1|", quick=True),
             Variant("imported-models-cached-by-path", MOD, "", "def read(file: Path) -> Model:", "_IMPORTED: dict = {}\n\n\ndef _remember(file, model_fn):\n    _IMPORTED[file.resolve()] = model_fn\n\n\ndef read(file: Path) -> Model:", expect="U6|", quick=True),
             Variant("species-assignments-dropped", MOD, "_codegen", "        elif key in model.variables:\n            sym.variables[key].value = SymbolicFn(fn_name=key, expr=der, args=free_symbols(der))\n", "", expect="U3|"),
+            Variant("named-coefficient-becomes-one", MOD, "_transform_stoichiometry", "return v.name", "return sympy.Float(1.0)", expect="U4|"),
             Variant("digest-of-stem", MOD, "read", "hashlib.sha256(str(file.resolve()).encode() + b'\\x00' + file.read_bytes())", "hashlib.sha256(file.stem.encode())", expect="U1|", quick=True),
             Variant("args-from-other-expression", MOD, "_codegen", "sym.derived[key] = SymbolicFn(fn_name=key, expr=der, args=free_symbols(der))",
                     "sym.derived[key] = SymbolicFn(fn_name=key, expr=der, args=sorted(model.parameters))", expect="U2|", quick=True),
@@ -204,6 +210,7 @@ class C17(Check):
 
     def must_stay_silent(self):
         return [
+            Variant("reaction-args-sorted-consistently", MOD, "_codegen", "fn=SymbolicFn(fn_name=key, expr=rxn.expr, args=free_symbols(rxn.expr))", "fn=SymbolicFn(fn_name=key, expr=rxn.expr, args=sorted(free_symbols(rxn.expr)))"),
             Variant("md5-digest", MOD, "read", "hashlib.sha256(", "hashlib.md5(", quick=True),
         ]
 
